@@ -1330,8 +1330,9 @@ class SegmentationImage:
         polygons = list(shapes(self.data.astype('int32'), connectivity=8))
         polygons.sort(key=lambda x: x[1])  # sort in label order
 
-        # do not include polygons for background (label = 0)
-        return polygons[1:]
+        # do not include polygons for background (label = 0); there can
+        # be zero, one, or several background regions
+        return [poly for poly in polygons if poly[1] != 0]
 
     @lazyproperty
     def polygons(self):
